@@ -1564,7 +1564,23 @@ fn gen_c15(r: &mut Rng, index: u64) -> String {
     if tcp_case {
         let tail = msg_tail(0x8180, 1, 0, &q.question(false), &[]);
         let framed = tcp_framed("IIII", &tail);
-        tcp.push(match r.below(4) {
+        tcp.push(match r.below(6) {
+            4 | 5 => {
+                // slow drip: the prefix at once, then one byte of the body every `gap` ms — every
+                // single read makes progress, the whole answer takes far longer than the lifetime.
+                // (literal ID bytes: a placeholder cannot be split; TCP answers are not matched on ID)
+                let lit = framed.replace("IIII", "abcd");
+                let gap = *r.pick(&[50u64, 70]);
+                let mut items = vec![lit[..4].to_string()];
+                let body = &lit[4..];
+                let mut i = 0;
+                while i < body.len() {
+                    items.push(format!("p{}", gap));
+                    items.push(body[i..i + 2].to_string());
+                    i += 2;
+                }
+                items
+            }
             0 => vec!["h".to_string()],
             1 => vec![framed[..4].to_string(), "h".to_string()],
             2 => {
@@ -1576,7 +1592,25 @@ fn gen_c15(r: &mut Rng, index: u64) -> String {
         });
     } else {
         let late = qt.map(|t| t - 5).unwrap_or(lt - 10);
-        match r.below(7) {
+        match r.below(9) {
+            7 | 8 => {
+                // paced flood: a decoy every millisecond across every per-attempt deadline, with or
+                // without the matching response on a later query
+                let answer_on = if r.chance(1, 2) { Some(r.range(1, 3)) } else { None };
+                for k in 0..8u64 {
+                    if Some(k) == answer_on {
+                        udp.push(vec![matching(&q)]);
+                        break;
+                    }
+                    let d = decoy(r, &q, buf);
+                    let mut e: Vec<String> = Vec::new();
+                    for _ in 0..qt.unwrap_or(40) * 2 {
+                        e.push(d.clone());
+                        e.push("p1".to_string());
+                    }
+                    udp.push(e);
+                }
+            }
             0 => {}
             1 => {
                 for _ in 0..8 {
